@@ -6,6 +6,8 @@
 import dataclasses
 import enum
 from typing import (
+    Dict,
+    List,
     Any,
     Callable,
     Generic,
@@ -19,6 +21,7 @@ from typing import (
 from typing_extensions import NotRequired, TypedDict
 
 __all__ = [
+    "Rev", "Fwd", "IntKeyed", "LS", "KT", "VT",
     "kwmap_int", "kwmap_str", "seq_int", "seq_str",
     "A", "B", "C", "D", "G", "E", "IE", "N", "TD", "TDp", "TDn", "HasX", "SupportsClose",
     "Suppress", "NoSuppress", "cond", "call", "use", "ident", "first", "pair", "apply_fn",
@@ -266,3 +269,36 @@ def seq_int() -> "list[int]":
 
 def seq_str() -> "list[str]":
     return ["s"]
+
+
+# ----------------------------------------------------------------- user generics over builtin containers
+
+KT = TypeVar("KT")
+VT = TypeVar("VT")
+
+
+class Rev(Dict[VT, KT], Generic[KT, VT]):
+    """Generic[...] is not the first base and lists the parameters in the other order:
+    Rev[int, str] is a dict[str, int]."""
+
+    def __repr__(self):
+        return f"Rev({dict.__repr__(self)})"
+
+
+class Fwd(Generic[KT, VT], Dict[KT, VT]):
+    """Fwd[int, str] is a dict[int, str]."""
+
+    def __repr__(self):
+        return f"Fwd({dict.__repr__(self)})"
+
+
+class IntKeyed(Dict[int, VT]):
+    """IntKeyed[str] is a dict[int, str]."""
+
+    def __repr__(self):
+        return f"IntKeyed({dict.__repr__(self)})"
+
+
+class LS(List[T]):
+    def __repr__(self):
+        return f"LS({list.__repr__(self)})"
